@@ -253,7 +253,12 @@ func (f *family) runCase(sc *scenario, variant string, muts []mutation, donor *r
 	case changed > 0:
 		r.Count("faults_that_changed_the_wire", 1)
 		r.Distinct(cse.sig())
-		r.SetAdd("fault_ops", muts[0].Op)
+		if strings.HasPrefix(muts[0].Op, "alt-") {
+			r.Count("coherent_alternative_responses:"+sc.rpc, 1)
+			r.SetAdd("fault_ops", muts[0].Op[:strings.IndexByte(muts[0].Op, ':')])
+		} else {
+			r.SetAdd("fault_ops", muts[0].Op)
+		}
 		r.SetAdd("rpc_message_sites", fmt.Sprintf("%s:H%d:%s", sc.rpc, muts[0].Msg, muts[0].Path))
 	default:
 		r.Count("faults_without_wire_change", 1)
@@ -338,7 +343,7 @@ func (f *family) run() {
 					continue
 				}
 				f.runCase(sc, v, []mutation{mu}, donor)
-				if forgeable[i] && mu.Msg == 0 && mu.Path != "" {
+				if forgeable[i] && mu.Msg == 0 && (mu.Path != "" || strings.HasPrefix(mu.Op, "alt-")) {
 					f.runCase(sc, v, []mutation{mu, {Dir: "H", Msg: 1, Op: "forge-sig"}}, donor)
 					r.Count("coherent_forgery_cases", 1)
 				}
@@ -536,7 +541,44 @@ func buildSectorFamily(f *family) error {
 	read.prepare = func(variant string) (*exchange, error) {
 		v := readVariants[variant]
 		var buf bytes.Buffer
+		// coherent range forgery: the host answers with the bytes and a VALID
+		// proof of another range of the same sector, DataLength matching
+		var alts []string
+		add := func(off, n uint64) {
+			if n > 0 && n%64 == 0 && off%64 == 0 && off < rhp4.SectorSize && n <= rhp4.SectorSize-off && !(off == v.off && n == v.len) {
+				alts = append(alts, fmt.Sprintf("%d+%d", off, n))
+			}
+		}
+		add(v.off, v.len-64)
+		add(v.off, 64)
+		add(v.off, v.len/2)
+		add(v.off, v.len+64)
+		add(v.off, 2*v.len)
+		if v.len < 1<<20 {
+			add(v.off, min(rhp4.SectorSize-v.off, 1<<16))
+		}
+		add(v.off+64, v.len)
+		add(v.off+64, v.len-64)
+		if v.off >= 64 {
+			add(v.off-64, v.len)
+			add(v.off-64, v.len+64)
+		}
 		return &exchange{
+			customOps: altOps(0, "alt-range:", alts),
+			custom: func(m *rhpmitm.Msg, mu mutation, _ *recorded) bool {
+				arg, ok := strings.CutPrefix(mu.Op, "alt-range:")
+				if !ok || m.Err != nil {
+					return false
+				}
+				var off, n uint64
+				if _, err := fmt.Sscanf(arg, "%d+%d", &off, &n); err != nil {
+					return false
+				}
+				data, proof := rhpmitm.SectorRangeProof(sectors[v.sec], off, n)
+				m.Obj = &rhp4.RPCReadSectorResponse{Proof: proof, DataLength: n}
+				m.Raw = data
+				return true
+			},
 			call: func(ctx context.Context) (any, error) {
 				buf.Reset()
 				_, err := rhp.RPCReadSector(ctx, l.T, l.Prices, l.Token(), &buf, roots[v.sec], v.off, v.len)
@@ -586,6 +628,37 @@ func buildSectorFamily(f *family) error {
 	verify.prepare = func(variant string) (*exchange, error) {
 		root, sec := roots[variant], sectors[variant]
 		return &exchange{
+			// a valid leaf proof - for another leaf than the requested one
+			customOps: altOps(0, "alt-leaf:", []string{"xor1", "next", "prev", "first", "last", "far"}),
+			custom: func(m *rhpmitm.Msg, mu mutation, seen *recorded) bool {
+				arg, ok := strings.CutPrefix(mu.Op, "alt-leaf:")
+				rq := seen.get(rhpmitm.RenterToHost, 0)
+				if !ok || m.Err != nil || rq == nil {
+					return false
+				}
+				idx := rq.Obj.(*rhp4.RPCVerifySectorRequest).LeafIndex
+				alt := idx
+				switch arg {
+				case "xor1":
+					alt = idx ^ 1
+				case "next":
+					alt = (idx + 1) % rhp4.LeavesPerSector
+				case "prev":
+					alt = (idx + rhp4.LeavesPerSector - 1) % rhp4.LeavesPerSector
+				case "first":
+					alt = 0
+				case "last":
+					alt = rhp4.LeavesPerSector - 1
+				case "far":
+					alt = (idx + rhp4.LeavesPerSector/2) % rhp4.LeavesPerSector
+				}
+				if alt == idx {
+					return false
+				}
+				leaf, proof := rhpmitm.SectorLeafProof(sec, alt)
+				m.Obj = &rhp4.RPCVerifySectorResponse{Proof: proof, Leaf: leaf}
+				return true
+			},
 			call: func(ctx context.Context) (any, error) {
 				return rhp.RPCVerifySector(ctx, l.T, l.Prices, l.Token(), root)
 			},
@@ -744,7 +817,57 @@ func buildRootsFamily(f *family) error {
 		off, n := ol[0], ol[1]
 		prev := c.cur
 		truth := append([]types.Hash256(nil), c.roots...)
+		// coherent alternatives: the roots and a VALID proof of another range of
+		// the same contract, with the genuine host signature ("alt-roots") or with
+		// a real-host-key signature over the revision that pays for the other
+		// length ("alt-roots-resign")
+		total := uint64(len(truth))
+		var alts []string
+		add := func(o, k uint64) {
+			if k > 0 && o < total && k <= total-o && !(o == off && k == n) {
+				alts = append(alts, fmt.Sprintf("%d,%d", o, k))
+			}
+		}
+		add(off, n-1)
+		add(off, n+1)
+		add(off, total-off)
+		add(off, 1)
+		add(off+1, n)
+		add(off+1, n-1)
+		if off > 0 {
+			add(off-1, n)
+			add(off-1, n+1)
+		}
+		resign, resignOps := resignCustom(l, "roots", 0, func(string) (types.V2FileContract, bool) {
+			rev, _, err := rhp4.ReviseForSectorRoots(prev.Revision, l.Prices, n)
+			return rev, err == nil
+		})
 		return &exchange{
+			customOps: append(append(altOps(0, "alt-roots:", alts), altOps(0, "alt-roots-resign:", alts)...), resignOps...),
+			custom: chainCustom(resign, func(m *rhpmitm.Msg, mu mutation, _ *recorded) bool {
+				arg, ok := strings.CutPrefix(mu.Op, "alt-roots:")
+				re := false
+				if !ok {
+					arg, ok = strings.CutPrefix(mu.Op, "alt-roots-resign:")
+					re = true
+				}
+				resp, isResp := m.Obj.(*rhp4.RPCSectorRootsResponse)
+				if !ok || m.Err != nil || !isResp {
+					return false
+				}
+				ok2 := parseInts(arg)
+				o, k := ok2[0], ok2[1]
+				resp.Roots = append([]types.Hash256(nil), truth[o:o+k]...)
+				resp.Proof = rhp4.BuildSectorRootsProof(truth, o, o+k)
+				if re {
+					rev, _, err := rhp4.ReviseForSectorRoots(prev.Revision, l.Prices, k)
+					if err != nil {
+						return false
+					}
+					resp.HostSignature = l.HostKey.SignHash(l.HostNode.CM.TipState().ContractSigHash(rev))
+				}
+				return true
+			}),
 			call: func(ctx context.Context) (any, error) {
 				return rhp.RPCSectorRoots(ctx, l.T, l.HostNode.CM.TipState(), l.Prices, l.Signer, prev, off, n)
 			},
@@ -863,6 +986,56 @@ func buildAppendFreeFamily(f *family) error {
 			rev, _, err := rhp4.ReviseForAppendSectors(prev.Revision, l.Prices, resp.NewMerkleRoot, uint64(n))
 			return rev, err == nil
 		}
+		altAppend := func(m *rhpmitm.Msg, mu mutation, _ *recorded) bool {
+			kind, ok := strings.CutPrefix(mu.Op, "alt-append:")
+			resp, isResp := m.Obj.(*rhp4.RPCAppendSectorsResponse)
+			if !ok || m.Err != nil || !isResp {
+				return false
+			}
+			var genuine []types.Hash256
+			for _, h := range req {
+				if h != missing {
+					genuine = append(genuine, h)
+				}
+			}
+			alt := append([]types.Hash256(nil), genuine...)
+			switch kind {
+			case "prefix": // claims everything was accepted, appends one sector fewer
+				if len(alt) < 2 {
+					return false
+				}
+				alt = alt[:len(alt)-1]
+			case "none": // claims acceptance, appends nothing
+				alt = nil
+			case "other": // appends a foreign root instead of the last one
+				alt[len(alt)-1] = types.Hash256{0xf0, 0x0d}
+			case "extra": // appends one more than accepted
+				alt = append(alt, genuine[0])
+			case "reordered":
+				if len(alt) < 2 || alt[0] == alt[1] {
+					return false
+				}
+				alt[0], alt[1] = alt[1], alt[0]
+			case "declined-last": // a legitimate decline: flags, proof and root agree
+				n := 0
+				for i := len(resp.Accepted) - 1; i >= 0 && n == 0; i-- {
+					if resp.Accepted[i] {
+						resp.Accepted[i] = false
+						n++
+					}
+				}
+				alt = alt[:len(alt)-1]
+			default:
+				return false
+			}
+			resp.SubtreeRoots, resp.NewMerkleRoot = rhp4.BuildAppendProof(prevRoots, alt)
+			return true
+		}
+		altAppendOps := altOps(0, "alt-append:", []string{"prefix", "none", "other", "extra", "reordered", "declined-last"})
+		defer func() {
+			ex.custom = chainCustom(ex.custom, altAppend)
+			ex.customOps = append(ex.customOps, altAppendOps...)
+		}()
 		ex.custom, ex.customOps = resignCustom(l, "append", 1, func(alt string) (types.V2FileContract, bool) {
 			// the genuine successor as the honest host computes it
 			model := append([]types.Hash256(nil), prevRoots...)
@@ -927,6 +1100,53 @@ func buildAppendFreeFamily(f *family) error {
 			rev, _, err := rhp4.ReviseForFreeSectors(prev.Revision, l.Prices, resp.NewMerkleRoot, ndel)
 			return rev, err == nil
 		}
+		altFree := func(m *rhpmitm.Msg, mu mutation, _ *recorded) bool {
+			kind, ok := strings.CutPrefix(mu.Op, "alt-free:")
+			resp, isResp := m.Obj.(*rhp4.RPCFreeSectorsResponse)
+			if !ok || m.Err != nil || !isResp {
+				return false
+			}
+			// the request as the client normalises it: descending, no duplicates
+			norm := slices.Clone(idx)
+			slices.SortFunc(norm, func(a, b uint64) int { return int(int64(b) - int64(a)) })
+			norm = slices.Compact(norm)
+			n := uint64(len(prevRoots))
+			var alt []uint64
+			switch kind {
+			case "fewer": // frees one sector less than requested
+				alt = norm[:len(norm)-1]
+			case "more": // frees one sector more
+				for i := uint64(0); i < n; i++ {
+					if !slices.Contains(norm, i) {
+						alt = append(slices.Clone(norm), i)
+						break
+					}
+				}
+			case "others": // frees the same number of other sectors
+				for _, i := range norm {
+					alt = append(alt, (i+1)%n)
+				}
+			case "nothing":
+				alt = []uint64{}
+			}
+			if alt == nil {
+				return false
+			}
+			alt = slices.Clone(alt)
+			slices.SortFunc(alt, func(a, b uint64) int { return int(int64(b) - int64(a)) })
+			alt = slices.Compact(alt)
+			if slices.Equal(alt, norm) {
+				return false
+			}
+			resp.OldSubtreeHashes, resp.OldLeafHashes = rhp4.BuildFreeSectorsProof(prevRoots, alt)
+			resp.NewMerkleRoot = rhp4.MetaRoot(applyFree(prevRoots, alt))
+			return true
+		}
+		altFreeOps := altOps(0, "alt-free:", []string{"fewer", "more", "others", "nothing"})
+		defer func() {
+			ex.custom = chainCustom(ex.custom, altFree)
+			ex.customOps = append(ex.customOps, altFreeOps...)
+		}()
 		ex.custom, ex.customOps = resignCustom(l, "free", 1, func(alt string) (types.V2FileContract, bool) {
 			rev, _, err := rhp4.ReviseForFreeSectors(prev.Revision, l.Prices, rhp4.MetaRoot(model), ndel)
 			return rev, err == nil
@@ -935,6 +1155,30 @@ func buildAppendFreeFamily(f *family) error {
 	}
 	f.scenarios = []*scenario{app, fr}
 	return nil
+}
+
+// chainCustom tries each custom mutator in turn.
+func chainCustom(fns ...customMut) customMut {
+	return func(m *rhpmitm.Msg, mu mutation, seen *recorded) bool {
+		for _, fn := range fns {
+			if fn != nil && fn(m, mu, seen) {
+				return true
+			}
+		}
+		return false
+	}
+}
+
+func altOps(msg int, prefix string, args []string) []mutation {
+	var out []mutation
+	seen := map[string]bool{}
+	for _, a := range args {
+		if !seen[a] {
+			seen[a] = true
+			out = append(out, mutation{Dir: "H", Msg: msg, Op: prefix + a})
+		}
+	}
+	return out
 }
 
 // resignAlterations are the ways the signed object is altered before it is
